@@ -116,6 +116,32 @@ def check_reports(rec):
                 v.append(("C18/feedin-negative", "row %d feed-in parts %s: %s" % (i, feed, d)))
             if len(v) > 3:
                 return v[:3]
+    # aggregates of the results JSON = the same functions of the series
+    jsons = rec["files"].get("jsons", {})
+    for g in rec["gc_ids"]:
+        cands = [x for x in jsons if x == "r.json" or x[2:-5] == "".join(c for c in g if c not in '</|\\>:"?*')]
+        if not cands:
+            continue
+        jr = jsons[cands[0]]
+        tl = [float(x) for x in rec["totalLoad"][g]]
+        if n > 0:
+            want = sum(tl) / n
+            got = jr.get("avg drawn power", {}).get("value")
+            if got is None or abs(got - want) > 1e-9 * max(1, abs(want)):
+                v.append(("C18/aggregate-avg-power", "%s: avg drawn power %s != sum(connector power)/steps = %s: %s" % (g, got, want, d)))
+            if any(tl):
+                pk = jr.get("power peaks", {}).get("total")
+                if pk is None or abs(pk - max(tl)) > 1e-9 * max(1, abs(max(tl))):
+                    v.append(("C18/aggregate-peak", "%s: power peak %s != max(connector power) = %s: %s" % (g, pk, max(tl), d)))
+            lg = jr.get("local energy generation", {}).get("value")
+            wantg = float(sum(rec["localGen"][g], F(0)) / rec["ts_per_hour"])
+            if lg is None or abs(lg - wantg) > 1e-9 * max(1, abs(wantg)):
+                v.append(("C18/aggregate-generation", "%s: local energy generation %s != %s: %s" % (g, lg, wantg, d)))
+            cyc = jr.get("all vehicle battery cycles", {}).get("value")
+            vcap = float(sum((x["cap"] for x in rec["veh"].values()), F(0)))
+            ven = float(sum((sum((max(x, F(0)) for x in c.values()), F(0)) for c in rec["commands"]), F(0)))
+            if vcap > 0 and (cyc is None or abs(cyc - ven / vcap) > 1e-9 * max(1, abs(ven / vcap))):
+                v.append(("C18/aggregate-cycles", "%s: vehicle battery cycles %s != %s: %s" % (g, cyc, ven / vcap, d)))
     socs = tables.get("s.csv")
     if socs is not None and len(socs) != n:
         v.append(("C18/row-count", "SoC file has %d rows, simulated %d steps: %s" % (len(socs), n, d)))
@@ -124,9 +150,13 @@ def check_reports(rec):
 
 # ---- cost round trip: in-run (simulate.py) vs. from written files (calculate_costs.py), same options
 def roundtrip_case(rng, tmp):
-    strategy = rng.choice(["greedy", "balanced", "balanced_market", "peak_shaving", "distributed"])
-    js = scen.gen_scenario(rng, n_gc=1, n_veh=rng.randint(1, 3), steps=rng.choice([8, 12, 24]), interval=rng.choice([15, 60]),
-                           features=set(rng.sample(["fixed", "generation", "battery", "price", "v2g"], rng.randint(1, 4))))
+    strategy = rng.choice(["greedy", "balanced", "balanced_market", "balanced_market", "peak_shaving", "distributed"])
+    feats = set(rng.sample(["fixed", "generation", "battery", "price", "v2g"], rng.randint(1, 4)))
+    if rng.random() < 0.4:
+        feats = {"fixed", "battery", "price"} | ({"v2g"} if rng.random() < 0.5 else set())    # support power without generation
+    js = scen.gen_scenario(rng, n_gc=1, n_veh=rng.randint(1, 3), steps=rng.choice([8, 12, 24]), interval=rng.choice([15, 60]), features=feats)
+    for b in js["components"].get("batteries", {}).values():
+        b["soc"] = 0.9
     js.pop("_features", None)
     return {"js": js, "strategy": strategy}
 
@@ -150,6 +180,9 @@ def cost_roundtrip(case):
             warnings.simplefilter("ignore")
             try:
                 simulate.simulate(args)
+            except AssertionError:
+                # in-run costing asserts complete series: an aborted run has no in-run costs to compare
+                return {"skip": "aborted run"}
             except Exception as e:  # noqa
                 return {"err": "in-run: " + repr(e)[:200]}
         inrun = json.load(open(rj)).get("costs")
@@ -164,7 +197,9 @@ def cost_roundtrip(case):
         if rc != 0:
             return {"err": "post-hoc: " + out[-300:]}
         post = json.load(open(rj)).get("costs")
-        return {"inrun": inrun, "post": post}
+        header = open(ts).readline().strip().split(",")
+        nrows = len(open(ts).read().splitlines()) - 1
+        return {"inrun": inrun, "post": post, "has_price_column": "price [ct/kWh]" in header, "rows": nrows}
     finally:
         shutil.rmtree(tmp, ignore_errors=True)
 
@@ -194,11 +229,16 @@ class RoundtripUnit(corr.Unit):
 
     def check_property(self, case, out):
         d = "%s scenario features %s" % (case["strategy"], sorted(case["js"]["events"].keys()))
+        if "skip" in out:
+            return []
         if "err" in out:
             return [("C18/cost-roundtrip-error", "%s: %s" % (out["err"], d))]
         a, b_ = flatten(out["inrun"]), flatten(out["post"])
         bad = [(k, a[k], b_.get(k)) for k in a if b_.get(k) is None or abs(a[k] - b_[k]) > 0.011 + 1e-6 * abs(a[k])]
         if bad:
+            if not out["has_price_column"] and case["strategy"] == "balanced_market":
+                return [("C18/cost-roundtrip-no-price-column", "all prices are zero, the CSV has no price column: in-run uses the fixed commodity charge, "
+                         "the file reader substitutes a price series of zeros: %s: %s" % (bad[:2], d))]
             return [("C18/cost-roundtrip", "costs from the written files differ from the in-run costs: %s: %s" % (bad[:4], d))]
         return []
 
@@ -221,7 +261,7 @@ def run(tier):
                     rep.add_violation(cls, what, {"unit": "reports", "case": sim.slim(r)})
         rep.notes["report_runs_checked"] = nrep
         rep.cov["evaluations"] += nrep
-        corr.correspond(RT, 10 if tier_ == "quick" else 80, sd, rep, check_model=False, label="cost round trip (implementation only, sampled)")
+        corr.correspond(RT, 16 if tier_ == "quick" else 120, sd, rep, check_model=False, label="cost round trip (implementation only, sampled)")
     return corr.standard_run("C18", tier, [SPLIT], 1500, 20000, sim.SIM_TRUSTED, RULE, extra=extra)
 
 
